@@ -316,9 +316,20 @@ class ListLengthCompiler(CustomCallCompiler):
 
 
 def list_new(
-    builder: DfBase[ops.DfParentOp], elem_type: ht.Type, args: list[Wire]
+    builder: DfBase[ops.DfParentOp],
+    elem_type: ht.Type,
+    args: list[Wire],
+    linear: bool | None = None,
 ) -> Wire:
-    if elem_type.type_bound() == ht.TypeBound.Linear:
+    """Builds a new list.
+
+    `linear` must say whether the Guppy element type is linear, since this decides if
+    the elements are wrapped into options (see `_list_to_hugr`). Affine types like
+    arrays have a linear Hugr bound but are not wrapped.
+    """
+    if linear is None:
+        linear = elem_type.type_bound() == ht.TypeBound.Linear
+    if linear:
         return _list_new_linear(builder, elem_type, args)
     else:
         return _list_new_classical(builder, elem_type, args)
